@@ -49,6 +49,10 @@ type c05Case struct {
 	AAD       string   `json:"aad,omitempty"` // hex; "" = none
 	Variant   int      `json:"variant,omitempty"`
 	Vector    string   `json:"vector,omitempty"`
+	// mode "alias": how the caller's per-recipient *Header objects are used across repeated Encrypt calls
+	HdrMode    string `json:"hdr_mode,omitempty"`    // fresh | mutated (ONE object refilled per call) | shared (ONE object untouched)
+	PostMutate bool   `json:"post_mutate,omitempty"` // the caller changes its header objects after Encrypt, before MarshalJSON
+	Start      string `json:"start,omitempty"`       // newmessage | withkw
 }
 
 var c05PTShapes = []string{"empty", "one", "aligned16", "aligned32", "minus1", "plus1", "large", "incompressible", "compressible"}
@@ -188,6 +192,8 @@ func execC05(c *vf.Ctx, d *vf.Driver, cs c05Case) {
 		execC05Indep(c, d, cs)
 	case "vector":
 		execC05Vector(c, d, cs)
+	case "alias":
+		execC05Alias(c, d, cs)
 	}
 }
 
@@ -508,6 +514,175 @@ func execC05Goat(c *vf.Ctx, d *vf.Driver, cs c05Case) {
 		c.Fail(vf.Violation{Kind: "property", Class: "c05-ecdhes-jwe-sender",
 			What: "no way of driving goat's encryption API with an ECDH-ES family key wrapper yields a message that the recipient's key decrypts",
 			Case: cs, Observed: lastObserved, Required: "a message that decrypts to the plaintext"})
+	}
+	c.Sample(cs)
+}
+
+// ---- mode alias: repeated Encrypt with reused caller header objects -----------------------------------
+
+// c05ParamLess: wrapping algorithms that publish no header parameters.
+var c05ParamLess = []string{"RSA1_5", "RSA-OAEP", "RSA-OAEP-256", "A128KW", "A192KW", "A256KW"}
+
+func c05AliasAlgs(cs c05Case) []string {
+	algs := append([]string{cs.Alg}, cs.Extra...)
+	if cs.Start == "withkw" || cs.HdrMode == "shared" {
+		for i := range algs { // one algorithm, named once (protected header) or in the one untouched header object
+			algs[i] = cs.Alg
+		}
+	}
+	return algs
+}
+
+// execC05Alias: a multi-recipient message built by NewMessage / NewMessageWithKW + repeated Encrypt, where the
+// per-recipient header objects handed to Encrypt are fresh, ONE object refilled between the calls, or ONE object
+// left untouched; optionally the caller changes its objects after the last Encrypt and before MarshalJSON.
+// Encrypt is a function of the header VALUE at call time: every recipient of the produced message must decrypt
+// with its own key, the emitted per-recipient header i must carry the values passed at call i, and the model
+// (pure) must produce the same bytes.
+func execC05Alias(c *vf.Ctx, d *vf.Driver, cs c05Case) {
+	r := vf.NewRand(cs.Seed)
+	e := newC05Env()
+	algs := c05AliasAlgs(cs)
+	for i, a := range algs {
+		e.addKey(c05MakeKey(a, cs.Enc, fmt.Sprintf("k%d", i), r, i))
+	}
+	pt := c05Plaintext(cs.PTShape, r, true)
+	zip := ""
+	if cs.Zip {
+		zip = "DEF"
+	}
+	c.Case(cs.key(), true)
+	c.Count("mode/alias")
+	c.Count("alias/" + cs.Start + "/" + cs.HdrMode + fmt.Sprintf("/post=%v", cs.PostMutate))
+	c.Count("alias-alg/" + cs.Alg)
+	fail := func(kind, what, obs, req string) {
+		c.Fail(vf.Violation{Kind: kind, Class: "c05-encrypt-header-aliased", What: what, Case: cs, Observed: obs, Required: req})
+	}
+	type callVal struct{ alg, kid, typ string }
+	var vals []callVal // the header VALUE handed to Encrypt for recipient i (index into algs)
+	var callers []*jwe.Header
+	var msg *jwe.Message
+	var data []byte
+	var err error
+	var args []vf.Wire
+	first := 0
+	panicked, what := vf.Recover(func() {
+		kw0 := vf.None()
+		var protW vf.Wire
+		if cs.Start == "withkw" {
+			first = 1
+			var kw keymanage.KeyWrapper
+			if kw, err = e.goatWrapper(algs[0], "k0"); err != nil {
+				return
+			}
+			h, _ := goatHeader(algs[0], zip, "", nil, nil, nil)
+			kw0, protW = handleWire(algs[0], "k0"), hdrWireOf(algs[0], zip, "", nil, nil, nil)
+			msg, err = jwe.NewMessageWithKW(jwa.EncryptionAlgorithm(cs.Enc), kw, h, pt)
+			vals = append(vals, callVal{})
+		} else {
+			h, _ := goatHeader("", zip, "", nil, nil, nil)
+			protW = hdrWireOf("", zip, "", nil, nil, nil)
+			msg, err = jwe.NewMessage(jwa.EncryptionAlgorithm(cs.Enc), h, pt)
+		}
+		if err != nil {
+			return
+		}
+		var one *jwe.Header // the ONE object of modes mutated / shared
+		var extras []vf.Wire
+		for i := first; i < len(algs); i++ {
+			var kw keymanage.KeyWrapper
+			if kw, err = e.goatWrapper(algs[i], fmt.Sprintf("k%d", i)); err != nil {
+				return
+			}
+			v := callVal{alg: algs[i], kid: fmt.Sprintf("r%d", i), typ: fmt.Sprintf("t%d", i)}
+			if cs.Start == "withkw" {
+				v.alg = "" // named in the protected header
+			}
+			if cs.HdrMode == "shared" {
+				v.kid, v.typ = "same", "same"
+			}
+			var h *jwe.Header
+			switch {
+			case cs.HdrMode == "fresh" || one == nil:
+				h = &jwe.Header{}
+				one = h
+				callers = append(callers, h)
+				fallthrough
+			case cs.HdrMode == "mutated":
+				if cs.HdrMode != "fresh" {
+					h = one
+				}
+				if v.alg != "" {
+					h.SetAlgorithm(jwa.KeyManagementAlgorithm(v.alg))
+				}
+				h.SetKeyID(v.kid)
+				h.SetType(v.typ)
+			default: // shared: untouched
+				h = one
+			}
+			if err = msg.Encrypt(kw, h); err != nil {
+				return
+			}
+			vals = append(vals, v)
+			extras = append(extras, vf.Arr(handleWire(algs[i], fmt.Sprintf("k%d", i)),
+				vf.Obj(vf.KV{K: "alg", V: vf.Str(v.alg)}, vf.KV{K: "kid", V: vf.Str(v.kid)}, vf.KV{K: "typ", V: vf.Str(v.typ)})))
+		}
+		if cs.PostMutate {
+			for _, h := range callers {
+				h.SetKeyID("changed-after-encrypt")
+				h.SetType("changed")
+				h.SetAlgorithm(jwa.Direct)
+				h.SetInitializationVector([]byte{1, 2, 3})
+				h.SetPBES2SaltInput([]byte{4})
+			}
+		}
+		data, err = msg.MarshalJSON()
+		args = []vf.Wire{vf.Str(cs.Enc), kw0, protW, vf.Bytes(pt), vf.Wire{Kind: vf.KArr, Arr: extras}, vf.Str("json")}
+	})
+	if panicked || err != nil {
+		fail("property", "goat's encryption API refuses or panics on repeated Encrypt", what+fmt.Sprint(err), "a message")
+		return
+	}
+	buildCalls := e.goatCalls
+	wraps := append([]c05WrapObs{}, e.wrapAns...)
+	p, perr := jweParse(data)
+	if perr != nil || len(p.Recipients) != len(algs) {
+		fail("property", "the produced JSON is not an RFC 7516 message with one element per recipient", string(data)+fmt.Sprint(perr), "RFC 7516 general JSON serialization")
+		return
+	}
+	// (a) the emitted per-recipient header i carries the values passed at call i
+	for i := first; i < len(algs); i++ {
+		h := p.Recipients[i].Header
+		got := callVal{}
+		got.alg, _ = h["alg"].(string)
+		got.kid, _ = h["kid"].(string)
+		got.typ, _ = h["typ"].(string)
+		if got != vals[i] {
+			fail("property", fmt.Sprintf("the per-recipient header emitted for recipient %d is not the header value passed to Encrypt at call %d", i, i),
+				fmt.Sprintf("%+v in %s", got, string(data)), fmt.Sprintf("%+v", vals[i]))
+		}
+	}
+	// (b) the model (a pure function of the values at call time) produces the same bytes
+	e.iv = p.IV
+	if len(wraps) > 0 {
+		e.cek = wraps[0].CEK
+	}
+	e.modCalls = nil
+	w, derr := d.Call("c05.encrypt", args, e.oracle())
+	c.TraceValidated()
+	if o := vf.AsOutcome(w); derr != nil || o.Tag != "ok" || !bytes.Equal(o.Val.Bytes, data) {
+		fail("correspondence", "the model's encryption path (Encrypt as a function of the header value at call time) does not produce goat's message",
+			"goat "+string(data), "model "+w.Render()+fmt.Sprint(derr))
+	} else if ok, diff := callsEqual(buildCalls, e.modCalls); !ok {
+		fail("correspondence", "goat and the model hand different values to WrapKey", diff, "identical callback traces")
+	}
+	// (c) EVERY recipient decrypts with its own key: goat, the model, the independent decoder
+	for t := range algs {
+		e.finder = c05Finder{Index: t, KeyID: fmt.Sprintf("k%d", t)}
+		checkDecrypt(c, d, e, cs, data, "json", pt, "c05-encrypt-header-aliased", fmt.Sprintf("message built by repeated Encrypt (%s headers), recipient %d (%s)", cs.HdrMode, t, algs[t]))
+		if ipt, _, ierr := p.jDecrypt(t, e.keys[fmt.Sprintf("k%d", t)]); ierr != nil || !bytes.Equal(ipt, pt) {
+			fail("property", fmt.Sprintf("the independent RFC 7516 decoder does not recover the plaintext for recipient %d", t), fmt.Sprint(ierr), "plaintext")
+		}
 	}
 	c.Sample(cs)
 }
@@ -929,6 +1104,30 @@ func runC05(c *vf.Ctx) {
 				for _, x := range combos {
 					c.Count("zip-stream")
 					zipJobs = append(zipJobs, genC05(r, mode, x.alg, x.enc, true, ser, sh))
+				}
+			}
+		}
+	}
+	// alias stream: repeated Encrypt with fresh / refilled / untouched caller header objects
+	for rep := 0; rep < c.Budget(2, 12); rep++ {
+		for _, start := range []string{"newmessage", "withkw"} {
+			for _, hm := range []string{"fresh", "mutated", "shared"} {
+				for _, post := range []bool{false, true} {
+					pool := c05Wrappable
+					if start == "withkw" {
+						pool = c05ParamLess // (parameter-carrying algorithms after NewMessageWithKW: finding c05-withkw-encrypt-param-collision)
+					}
+					for _, alg := range pool {
+						if c.Quick() && r.Intn(2) == 0 {
+							continue
+						}
+						cs := c05Case{Mode: "alias", Alg: alg, Enc: vf.Pick(r, c05Encs), Zip: r.Intn(4) == 0, Ser: "json-multi",
+							PTShape: vf.Pick(r, []string{"one", "aligned16", "plus1", "compressible"}), Seed: r.U64(), HdrMode: hm, PostMutate: post, Start: start, Target: -1}
+						for n := 1 + r.Intn(3); n > 0; n-- {
+							cs.Extra = append(cs.Extra, vf.Pick(r, pool))
+						}
+						jobs = append(jobs, cs)
+					}
 				}
 			}
 		}
